@@ -1,10 +1,64 @@
-/- driver handler for component Branch: requests whose first token belongs to it -/
+/- driver handler for component Branch (C06): requests whose first token is `branch`
+
+   branch <op> ; <op> ; …          (the forest starts with one fresh Branch())
+     op = N                          Branch()
+        | A <b> <id> <node>          branches[b].append(node object #id)      node: see Ptx.Node.parse
+        | C <b>                      branches.append(branches[b].copy())
+        | T <b> <id>                 branches[b].tick(node object #id)
+   answer: one group per op, joined by " ; ":
+     <out> : <branch> | <branch> | …
+     out    = ok | err:IllegalStateError | err:DuplicateValueError | err:nobranch
+     branch = <new_constant i.s> <new_world> <constants i.s,… sorted> <worlds sorted> <len> <#ticked> <closed 0|1>
+-/
 import Ptx.Wire
+import Ptx.Tab.Branch
 namespace Ptx.Drv.Branch
+open Ptx Ptx.Tab
+
+def insertSorted {α} (lt : α → α → Bool) (x : α) : List α → List α
+  | [] => [x]
+  | y :: ys => if lt x y then x :: y :: ys else y :: insertSorted lt x ys
+
+def sortBy {α} (lt : α → α → Bool) (xs : List α) : List α := xs.foldr (insertSorted lt) []
+
+def showConst (c : Const) : String := s!"{c.index}.{c.sub}"
+
+def listOr (xs : List String) : String := if xs.isEmpty then "-" else ",".intercalate xs
+
+def showBranch (b : BranchState) : String :=
+  " ".intercalate [showConst b.newConstant, toString b.newWorld,
+    listOr ((sortBy (fun a c => decide (a < c)) b.consts).map showConst),
+    listOr ((sortBy (fun a c => decide (a < c)) b.worlds).map toString),
+    toString b.entries.length, toString b.ticked.length, if b.closed then "1" else "0"]
+
+def showOut : OpOut → String
+  | .ok => "ok"
+  | .err .illegalState => "err:IllegalStateError"
+  | .err .duplicate => "err:DuplicateValueError"
+  | .noBranch => "err:nobranch"
+
+def parseOp : List String → Option BranchOp
+  | ["N"] => some .new
+  | "A" :: b :: id :: r => do
+    let (n, rest) ← Node.parse r
+    if rest.isEmpty then some (.append (← b.toNat?) (← id.toNat?) n) else none
+  | ["C", b] => b.toNat?.map .copy
+  | ["T", b, id] => do some (.tick (← b.toNat?) (← id.toNat?))
+  | _ => none
+
+def runShow (f : Forest) : List BranchOp → List String
+  | [] => []
+  | op :: ops =>
+    let r := execOp f op
+    (showOut r.2 ++ " : " ++ " | ".intercalate (r.1.map showBranch)) :: runShow r.1 ops
 
 /-- `none` = not my request -/
 def handle (ts : List String) : Option String :=
   match ts with
+  | "branch" :: r =>
+    some <| match (Wire.splitAt ";" r).mapM parseOp with
+      | some ops => " ; ".intercalate (runShow [BranchState.empty] ops)
+      | none => "err:wire"
   | _ => none
 
 end Ptx.Drv.Branch
